@@ -202,6 +202,14 @@ class FormatterFactory:
             #
             raise ValueError('%s formats cannot use positional placeholders')
 
+        # The formatter class may validate the format string itself
+        # (logging.Formatter does, and is stricter than the trial
+        # formatting above: it refuses a format without any field
+        # reference, for example).  Build a formatter now, so that an
+        # unusable format is a configuration error rather than a
+        # ValueError when the handler is created.
+        self()
+
     def __call__(self):
         #
         # Need to determine if we should pass
